@@ -152,6 +152,13 @@ def main():
             except Inexact:
                 cache[key] = None          # every operation used here maps the lattice to itself
                 out.write({"id": key, "op": "offlattice", "nt": True, "args": {}, "parents": [], "child": {}})
+            except Exception as ex:  # noqa: BLE001  an operation applicable to the cell type raised: verdict NoException, go on
+                cache[key] = None
+                if out.want(key):
+                    import traceback
+                    tb = traceback.extract_tb(ex.__traceback__)
+                    where = next((f"{t.filename.split('/src/')[-1]}:{t.lineno}" for t in reversed(tb) if "/felupe/" in t.filename), "driver")
+                    out.write({"id": key, "kind": "exception", "op": "exception", "nt": True, "error": type(ex).__name__ + ": " + str(ex)[:200], "where": where})
     out.close()
 
 
